@@ -65,7 +65,7 @@ def _single(text):
         return dict(mono=refchem.comp_mass(c, True), avg=refchem.comp_mass(c, False), comp=c, kind='formula')
     if low.startswith('glycan:'):
         body = text.split(':', 1)[1]
-        comp, m, a = {}, 0.0, 0.0
+        comp, m, a, units = {}, 0.0, 0.0, 0
         pos = 0
         names = sorted(mono_t, key=len, reverse=True)
         while pos < len(body):
@@ -76,6 +76,7 @@ def _single(text):
                     cnt = int(mm.group(0)) if mm else 1
                     pos += len(mm.group(0)) if mm else 0
                     e = mono_t[nm]
+                    units += cnt
                     m += e['mono'] * cnt
                     a += e['avg'] * cnt
                     for el, n in e['comp'].items():
@@ -83,7 +84,7 @@ def _single(text):
                     break
             else:
                 raise ValueError(f'glycan {body!r}')
-        return dict(mono=m, avg=a, comp=comp, kind='glycan')
+        return dict(mono=m, avg=a, comp=comp, kind='glycan', units=units)
     for pre, kind in (('unimod:', 'u'), ('u:', 'u'), ('psi-mod:', 'p'), ('mod:', 'p'), ('m:', 'p'), ('xlmod:', 'x'), ('x:', 'x'),
                       ('resid:', 'r'), ('r:', 'r'), ('gno:', 'g'), ('g:', 'g')):
         if low.startswith(pre):
